@@ -62,6 +62,8 @@ class LinksMachine(TraceMachine):
         self.n_cleanups = 0
         self.n_removed = 0
         self.n_guarded = 0
+        self.n_touch_recorded = 0
+        self.n_records = 0
         self.nontrivial = False
         self.nsrc = 0
 
@@ -72,7 +74,8 @@ class LinksMachine(TraceMachine):
         return Result([], self.nontrivial, sorted(self.labels),
                       {"cleanups": self.n_cleanups, "links_removed": self.n_removed,
                        "link_histories": 1, "link_steps": len(self.trace),
-                       "cleanups_with_guarded_modified": self.n_guarded})
+                       "cleanups_with_guarded_modified": self.n_guarded,
+                       "records": self.n_records, "user_ops_on_recorded": self.n_touch_recorded})
 
     # ---- helpers -----------------------------------------------------------------------------
     def p(self, rel):
@@ -144,6 +147,8 @@ class LinksMachine(TraceMachine):
 
     def touch(self, slot, why):
         m = self.model[slot]
+        if m["recorded"]:
+            self.n_touch_recorded += 1
         m["touched"] = True
         m["why"] = why
 
@@ -164,6 +169,7 @@ class LinksMachine(TraceMachine):
         self.state.save_link(path, self.fs)
         self.observe(path)
         self.model[rel] = {"recorded": True, "touched": False, "why": None, "sig": self.sig(path)}
+        self.n_records += 1
         self.labels.add("record:save_link:" + ("dir" if os.path.isdir(path) else "file"))
 
     @rule(slot=slot_s, kind=st.sampled_from(["file", "dir"]), content=content_s, tree=tree_s,
@@ -192,11 +198,10 @@ class LinksMachine(TraceMachine):
         checkout(path, self.fs, obj, odb, relink=True, state=self.state)
         self.observe(path)
         self.model[rel] = {"recorded": True, "touched": False, "why": None, "sig": self.sig(path)}
+        self.n_records += 1
         self.labels.add(f"record:checkout:{link}:" + ("dir" if kind == "dir" else "file"))
 
     # ---- rules: the user changes things ------------------------------------------------------
-    @rule(slot=slot_s, sub=st.integers(0, 5), content=content_s,
-          inplace=st.sampled_from([True, True, False]), delta=delta_s)
     @traced
     def user_modify(self, slot, sub, content, inplace, delta):
         rel = self.existing(slot)
@@ -222,7 +227,6 @@ class LinksMachine(TraceMachine):
             self.write_new(f, data, delta)
             self.touch(rel, "modified-recreated")
 
-    @rule(slot=slot_s, content=content_s, keep_mtime=st.sampled_from([True, True, False]), delta=delta_s)
     @traced
     def user_replace(self, slot, content, keep_mtime, delta):
         """Replace by a new inode (temp sibling + rename); a file may keep its old mtime."""
@@ -257,7 +261,6 @@ class LinksMachine(TraceMachine):
         if os.lstat(path).st_ino == old_ino:
             raise HarnessError("replace did not produce a new inode")
 
-    @rule(slot=slot_s)
     @traced
     def user_remove(self, slot):
         rel = self.existing(slot)
@@ -270,7 +273,6 @@ class LinksMachine(TraceMachine):
             os.unlink(path)
         self.touch(rel, "removed")
 
-    @rule(slot=slot_s, kind=st.sampled_from(["file", "dir"]), content=content_s, tree=tree_s, delta=delta_s)
     @traced
     def user_create(self, slot, kind, content, tree, delta):
         """The user creates something at a (possibly formerly recorded) path."""
@@ -285,7 +287,6 @@ class LinksMachine(TraceMachine):
                 self.write_new(os.path.join(path, *name.split("/")), gen.content_bytes(c), delta)
         self.touch(rel, "user-created")
 
-    @rule(slot=slot_s, name=st.sampled_from(INNER + ["new", "f1.bak"]), content=content_s, delta=delta_s)
     @traced
     def user_add_file_in_dir(self, slot, name, content, delta):
         rel = self.existing(slot, dirs_only=True)
@@ -298,7 +299,6 @@ class LinksMachine(TraceMachine):
         self.write_new(f, gen.content_bytes(content), delta)
         self.touch(rel, "file-added-in-dir")
 
-    @rule(slot=slot_s, sub=st.integers(0, 5), name=st.sampled_from(INNER + ["renamed"]))
     @traced
     def user_rename_in_dir(self, slot, sub, name):
         """Move a file inside a recorded directory: mtimes stay, the path set changes."""
@@ -319,7 +319,6 @@ class LinksMachine(TraceMachine):
         os.rename(src, dst)
         self.touch(rel, "file-renamed-in-dir")
 
-    @rule(slot=slot_s, sub=st.integers(0, 5))
     @traced
     def user_delete_in_dir(self, slot, sub):
         rel = self.existing(slot, dirs_only=True)
@@ -332,12 +331,49 @@ class LinksMachine(TraceMachine):
         os.unlink(files[sub % len(files)])
         self.touch(rel, "file-deleted-in-dir")
 
-    @rule(i=st.integers(0, len(BYSTANDERS) - 1), content=content_s, delta=delta_s)
     @traced
     def bystander(self, i, content, delta):
         """A user file the state never recorded."""
         self.write_new(self.p(BYSTANDERS[i]), gen.content_bytes(content), delta)
         self.labels.add("bystander")
+
+    # ---- one dispatcher rule (declared twice) keeps the rule mix at record / user / cleanup ------
+    USER_OPS = (["modify"] * 4 + ["replace"] * 3 + ["add_in_dir"] * 2 + ["rename_in_dir"] * 2
+                + ["delete_in_dir", "remove", "create", "bystander"])
+
+    def _user(self, what, slot, sub, content, flag, delta, name, kind, tree, then_cleanup):
+        if what == "modify":
+            self.user_modify(slot=slot, sub=sub, content=content, inplace=flag, delta=delta)
+        elif what == "replace":
+            self.user_replace(slot=slot, content=content, keep_mtime=flag, delta=delta)
+        elif what == "add_in_dir":
+            self.user_add_file_in_dir(slot=slot, name=name, content=content, delta=delta)
+        elif what == "rename_in_dir":
+            self.user_rename_in_dir(slot=slot, sub=sub, name=name)
+        elif what == "delete_in_dir":
+            self.user_delete_in_dir(slot=slot, sub=sub)
+        elif what == "remove":
+            self.user_remove(slot=slot)
+        elif what == "create":
+            self.user_create(slot=slot, kind=kind, content=content, tree=tree, delta=delta)
+        else:
+            self.bystander(i=slot % len(BYSTANDERS), content=content, delta=delta)
+        if then_cleanup and not self.failed:
+            self.cleanup(mask=0, ghost=False)
+
+    _USER_ARGS = dict(  # noqa: C408
+        what=st.sampled_from(USER_OPS), slot=slot_s, sub=st.integers(0, 5), content=content_s,
+        flag=st.sampled_from([True, True, False]), delta=delta_s,
+        name=st.sampled_from(INNER + ["new", "renamed"]), kind=st.sampled_from(["file", "dir"]), tree=tree_s,
+        then_cleanup=st.booleans())
+
+    @rule(**_USER_ARGS)
+    def user_a(self, **kw):
+        self._user(**kw)
+
+    @rule(**_USER_ARGS)
+    def user_b(self, **kw):
+        self._user(**kw)
 
     # ---- rule: clean-up ----------------------------------------------------------------------
     @rule(mask=st.one_of(st.just(0), st.sampled_from([1, 2, 4, 8]), st.integers(0, 2 ** len(SLOTS) - 1)),
@@ -345,11 +381,6 @@ class LinksMachine(TraceMachine):
     @traced
     def cleanup(self, mask, ghost):
         self._cleanup(mask, ghost)
-
-    @rule()
-    @traced
-    def cleanup_nothing_used(self):
-        self._cleanup(0, False)
 
     def _cleanup(self, mask, ghost):
         used_rel = [s for i, s in enumerate(SLOTS) if mask >> i & 1]
